@@ -137,3 +137,122 @@ def check_c12(res):
                 res.violations.append(Violation("bytes-after-length-change-result", docline(d + x, length=len(d)),
                                                 "%s vs %s" % (a[:300], base[d][:300]), cfg))
         res.sample(lines[5])
+
+
+# =============================================================================== C04
+def c04_literals(rnd, cfg, n):
+    clj, exp = cfg[0] == "1", cfg[1] == "1"
+    out = []
+    edges = [2 ** 63 - 1, 2 ** 63, 2 ** 63 + 1, 2 ** 64, 2 ** 64 - 1, 10 ** 8 - 1, 10 ** 8, 10 ** 16 - 1, 10 ** 16,
+             10 ** 18, 10 ** 19 - 1, 10 ** 19, 999, 1000, 0, 1, 9, 10, 99999999999999999]
+    for _ in range(n):
+        k = rnd.random()
+        if k < 0.25:
+            v = rnd.choice(edges) + rnd.randrange(-3, 4)
+            v = max(v, 0)
+        elif k < 0.6:
+            nd = rnd.randrange(1, 41)
+            v = rnd.randrange(10 ** (nd - 1), 10 ** nd) if nd > 1 else rnd.randrange(0, 10)
+        else:
+            v = rnd.randrange(0, 2 ** rnd.randrange(1, 70))
+        sign = rnd.choice(["", "", "-", "+"])
+        form = rnd.random()
+        if clj and form < 0.15:
+            body = "0x%x" % v if rnd.random() < 0.5 else "0X%X" % v
+            body += rnd.choice(["", "", "N"])
+        elif clj and form < 0.25 and v > 0:
+            body = "0" * rnd.randrange(1, 3) + "%o" % v
+        elif clj and form < 0.4:
+            radix = rnd.randrange(2, 37)
+            digs = "0123456789abcdefghijklmnopqrstuvwxyz"
+            s, x = "", v
+            while True:
+                s = digs[x % radix] + s
+                x //= radix
+                if x == 0:
+                    break
+            if rnd.random() < 0.3:
+                s = s.upper()
+            body = "%d%s%s" % (radix, rnd.choice("rR"), s)
+        elif clj and form < 0.6:
+            d = rnd.choice([1, 2, 3, 6, 10, 2 ** 63 - 1, 2 ** 63, rnd.randrange(1, 10 ** rnd.randrange(1, 22))])
+            body = "%d/%d" % (v, d)
+        else:
+            body = str(v)
+            if exp and len(body) > 1 and rnd.random() < 0.4:
+                parts = []
+                for i, ch in enumerate(body):
+                    parts.append(ch)
+                    if i + 1 < len(body) and rnd.random() < 0.25:
+                        parts.append("_" * rnd.randrange(1, 3))
+                body = "".join(parts)
+            body += rnd.choice(["", "", "", "N", "M"])
+        out.append(sign + body)
+    return out
+
+
+@prop("C04")
+def check_c04(res):
+    rnd = random.Random(res.seed)
+    thorough = res.tier == "thorough"
+    res.rule = ("integer-family literals (decimal 1..40 digits, 2^63 / 10^8k neighbourhoods, sign, N/M suffix; "
+                "clj: hex, octal, NrD radix 2..36, ratios incl. INT64_MIN/MAX operands; exp: underscores) read "
+                "through the public API and compared with Python integer arithmetic; direct calls of the static "
+                "parse_int64_from_buffer and SWAR functions incl. every digit count 1..40 and all block-count "
+                "changes; non-trivial = distinct literal text")
+    n = 4000 if thorough else 1200
+    for cfg in CFGS:
+        clj, exp = cfg[0] == "1", cfg[1] == "1"
+        lits = c04_literals(rnd, cfg, n)
+        # exhaustive neighbourhood of +-2^63
+        for d in range(-40 if not thorough else -2000, 41 if not thorough else 2001):
+            lits.append(str(2 ** 63 + d))
+            lits.append("-" + str(2 ** 63 + d))
+        lines = [docline(l.encode()) for l in lits]
+        impl, model = correspond(res, cfg, "san", lines, label="int-literals")
+        for lit, a in zip(lits, impl):
+            res.nontrivial.add((cfg, lit))
+            res.count("literal:" + ("ratio" if "/" in lit else "radix" if "r" in lit.lower() and clj else
+                                    "hex" if "x" in lit.lower() else "dec"))
+            if is_crash(a):
+                res.violations.append(Violation("int-literal-crash", docline(lit.encode()), a, cfg))
+                continue
+            want = "OK %s@0-%d calls=0" % (refs.expect_int_literal(lit, clj, exp), len(lit))
+            if a != want:
+                res.violations.append(Violation("int-literal-wrong-value", docline(lit.encode()),
+                                                "literal %s: implementation %s, mathematical value %s" % (lit, a, want), cfg))
+        res.sample({"cfg": cfg, "literal": lits[0]})
+        # leaf calls
+        leaf, meta = [], []
+        for nd in range(1, 41):
+            for _ in range(6 if thorough else 2):
+                for radix in ([10] + (list(range(2, 37)) if thorough else [2, 8, 16, 36])):
+                    digs = "0123456789abcdefghijklmnopqrstuvwxyz"[:radix]
+                    s = "".join(rnd.choice(digs) for _ in range(nd))
+                    if exp and nd > 2 and rnd.random() < 0.3:
+                        i = rnd.randrange(1, nd)
+                        s = s[:i] + "_" + s[i:]
+                    for neg in (0, 1):
+                        leaf.append("int64 %s %d %d" % (s.encode().hex(), radix, neg))
+                        meta.append((s, radix, neg))
+        impl, model = correspond(res, cfg, "san", leaf, label="parse_int64")
+        for (s, radix, neg), a in zip(meta, impl):
+            want = refs.expect_int64(s, radix, neg, exp)
+            res.count("leaf:int64")
+            if a != want:
+                res.violations.append(Violation("parse-int64-wrong", "int64 %s %d %d" % (s.encode().hex(), radix, neg),
+                                                "digits %s radix %d neg %d: %s, expected %s" % (s, radix, neg, a, want), cfg))
+        # SWAR blocks: sampled against the model, exhaustive range on the C side
+        sw = []
+        for _ in range(300):
+            blk = bytes(rnd.choice(b"0123456789") if rnd.random() < 0.9 else rnd.randrange(256) for _ in range(8))
+            sw.append("swar %s" % blk.hex())
+        correspond(res, cfg, "san", sw, label="swar")
+    span = (0, 100000000) if thorough else (rnd.randrange(0, 99000000),) * 2
+    if not thorough:
+        span = (span[0], span[0] + 1000000)
+    out = runner.run_impl("00", "prod", ["swarall %d %d" % span])
+    res.evaluations += span[1] - span[0]
+    res.count("swar-blocks", span[1] - span[0])
+    if not out[0].startswith("OK"):
+        res.violations.append(Violation("swar-block-wrong", "swarall %d %d" % span, out[0], "00"))
